@@ -93,3 +93,46 @@ func c09Rotation(c *Ctx, k c09Cfg, file, oldAdmin string) {
 		c.R.Fail(lib.Failure{Case: "admin token rotation (new token)", Ops: []string{"# the newly configured admin token on GET /api/v1/access"}, What: "the newly configured admin token is refused", Expected: "200", Observed: fmt.Sprint(r.Status), Signature: "c09-new-admin-token-refused"})
 	}
 }
+
+var c09RawDone bool
+
+// c09RawBytes (oracle only: the model's strings are valid UTF-8): never-issued credentials that are an issued token
+// plus bytes that are not valid UTF-8 / not text. A store that normalises its lookup argument (drops or replaces such
+// bytes) would take them for the issued token. They are unknown tokens: 401 on every probed route, and a DELETE of
+// such a value must not revoke the issued token it resembles.
+func c09RawBytes(c *Ctx, rig *c09Rig, k c09Cfg, toks c09Toks) {
+	if c09RawDone || !k.auth || c.Replay != "" {
+		return
+	}
+	c09RawDone = true
+	variants := []struct{ name, tok string }{
+		{"valid token + 0xff", toks.U + "\xff"}, {"0xc3 + valid token", "\xc3" + toks.U}, {"valid token + 0xc3", toks.U + "\xc3"},
+		{"valid token with 0xfe inside", toks.U[:5] + "\xfe" + toks.U[5:]}, {"valid token + 0xed 0xa0 0x80 (surrogate)", toks.U + "\xed\xa0\x80"},
+	}
+	for _, v := range variants {
+		for _, path := range []string{c09Prefix + "/network/peer", c09Prefix + "/chain/tip/longest", c09Prefix + "/access"} {
+			r := c09Do(rig, "GET", path, "", true, "Bearer "+v.tok)
+			c.R.OracleChecked++
+			c.R.Count("request with a credential that is not valid UTF-8", 1)
+			if r.Status != 401 || r.Panic != "" {
+				c.R.Fail(lib.Failure{Case: "raw-byte credential GET " + path, Ops: []string{fmt.Sprintf("# c09 %s: GET %s with Authorization: Bearer <%s> (%q) while the valid token is issued and unrevoked", k.bits(), path, v.name, v.tok)},
+					What: "a never-issued credential (" + v.name + ") is not answered 401", Expected: "401", Observed: fmt.Sprintf("%d %s %s", r.Status, r.Body, r.Panic), Signature: "c09-raw-byte-credential-accepted"})
+			}
+		}
+	}
+	// revoking such a value (admin) must leave the issued token valid
+	for _, v := range variants[:2] {
+		esc := ""
+		for i := 0; i < len(v.tok); i++ {
+			esc += fmt.Sprintf("%%%02X", v.tok[i])
+		}
+		_ = c09Do(rig, "DELETE", c09Prefix+"/access/"+esc, "", true, "Bearer "+toks.A)
+		r := c09Do(rig, "GET", c09Prefix+"/network/peer", "", true, "Bearer "+toks.U)
+		c.R.OracleChecked++
+		if r.Status == 401 {
+			c.R.Fail(lib.Failure{Case: "revoke of a raw-byte value", Ops: []string{fmt.Sprintf("# c09 %s: DELETE %s/access/%s by the admin, then GET /network/peer with the valid user token", k.bits(), c09Prefix, esc)},
+				What: "revoking a never-issued value (" + v.name + ") made the issued token invalid: the valid user token is answered 401", Expected: "the issued token still authenticates", Observed: fmt.Sprintf("%d %s", r.Status, r.Body), Signature: "c09-raw-byte-revoke-hits-issued-token"})
+			break
+		}
+	}
+}
